@@ -17,6 +17,7 @@
 package url
 
 import (
+	"strconv"
 	"strings"
 )
 
@@ -174,11 +175,13 @@ func (u *Url) SetPort(port string) {
 }
 
 func (u *Url) DecodedPort() int {
-	if u.decodedPort == 0 {
-		return u.getDefaultPort()
-	} else {
-		return u.decodedPort
+	// Derived from the port itself: the cached value cannot tell port 0 from no port.
+	if u.port != nil {
+		if p, err := strconv.Atoi(*u.port); err == nil {
+			return p
+		}
 	}
+	return u.getDefaultPort()
 }
 
 // Pathname implements WHATWG url api (https://url.spec.whatwg.org/#api)
@@ -297,12 +300,34 @@ func (u *Url) newUrlSearchParams() {
 	u.searchParams = usp
 }
 
+// IsIPv4 tells if the host is an IPv4 address. It is derived from the host
+// itself, so it stays correct when the host is copied from a base url or
+// replaced by a setter.
 func (u *Url) IsIPv4() bool {
-	return u.isIPv4
+	return u.host != nil && u.IsSpecialScheme() && isSerializedIPv4(*u.host)
 }
 
+// IsIPv6 tells if the host is an IPv6 address (see IsIPv4).
 func (u *Url) IsIPv6() bool {
-	return u.isIPv6
+	return u.host != nil && strings.HasPrefix(*u.host, "[")
+}
+
+// isSerializedIPv4 tells if s is four dot separated decimal numbers in the range 0-255
+// without leading zeros, which is how an IPv4 host is serialized.
+func isSerializedIPv4(s string) bool {
+	parts := strings.Split(s, ".")
+	if len(parts) != 4 {
+		return false
+	}
+	for _, part := range parts {
+		if part == "" || len(part) > 3 || (len(part) > 1 && part[0] == '0') || !containsOnly(part, ASCIIDigit) {
+			return false
+		}
+		if n, err := strconv.Atoi(part); err != nil || n > 255 {
+			return false
+		}
+	}
+	return true
 }
 
 // Clone returns a deep copy of the URL.
